@@ -489,6 +489,7 @@ func main() {
 	files = append(files, genPoolUse(byDir)...)
 	files = append(files, genOptState(byDir)...)
 	files = append(files, genStreamPattern(byDir)...)
+	files = append(files, genFrames(byDir)...)
 	files = append(files, genVmShape(repo, byDir)...)
 	changed := []string{}
 	for _, g := range files {
